@@ -411,6 +411,7 @@ def _visited_guard(ctx, fn, call):
     early return precede it)?"""
     for pc in P.path_conds(fn, call):
         if pc[0] in ('if',):
+            # `a && visited.insert(x) && rec(..)`: the left operand is itself a conjunction
             for n in walk(pc[1]):
                 if n['k'] == 'mcall' and n['method'] in VISITED_METHODS:
                     rt = n['recv'].get('ty', '') + n['recv'].get('aty', '')
@@ -422,7 +423,6 @@ def _visited_guard(ctx, fn, call):
 def _structural_arg(ctx, fn, call):
     """is some argument of the recursive call a strict sub-term of a parameter (Box inner, of_type, sub-selection ids)?"""
     for a in call.get('args', []) + ([call['recv']] if call['k'] == 'mcall' else []):
-        t = ctx.pv.eval(fn, a, {}, 0)
         ty = a.get('ty', '')
         # graphql_parser AST / introspection TypeRef / Value
         if any(x in ty for x in ('graphql_parser::', 'TypeRef', 'introspection_response')):
